@@ -18,7 +18,7 @@
 (*                  defines for the logged call   (=> conformance only)    *)
 (* The verdict predicates never consult Apply.                             *)
 (***************************************************************************)
-EXTENDS PropsC, Json, IOUtils, TLCExt
+EXTENDS PropsQ, Json, IOUtils, TLCExt
 
 CONSTANTS Strict
 
@@ -90,13 +90,14 @@ CheckRecord(k) ==
          /\ Report("FAIL", k, ActionClauses(pre, c, r.out, post, FullPre(r), FullPost(r)))
          /\ (IF c.op \in {"hq", "hcheck"} THEN Report("FAIL", k, QueryClauses(pre, c, RetOf(r), InfoOf(r))) ELSE TRUE)
          /\ (IF c.op \in {"uniquify", "flatten"} THEN Report("FAIL", k, TransformClauses(pre, c, r.out, post)) ELSE TRUE)
+         /\ (IF c.op = "q" THEN Report("FAIL", k, QueryFilterClauses(c, r)) ELSE TRUE)
          /\ (IF c.op = "clone" THEN Report("FAIL", k, CloneClauses(pre, c, r.out, post, RetOf(r), FullPost(r))) ELSE TRUE)
          /\ (IF HasMirror(r)
              THEN Report("FAIL", k, << <<"C19_MirrorExact", C19_MirrorExact(post, MirrorAfter(r))>>,
                                        <<"C19_BeforeEffect", C19_BeforeEffect(r.ann)>>,
                                        <<"C19_Transparent", IF "agree" \in DOMAIN r THEN r.agree ELSE TRUE>> >>)
              ELSE TRUE)
-         /\ (IF Strict /\ c.op \notin {"uniquify", "flatten"}
+         /\ (IF Strict /\ c.op \notin {"uniquify", "flatten", "q"}
              THEN Report("DRIFT", k, StrictClauses(pre, c, r.out, post, RetOf(r))) ELSE TRUE)
 
 Init == l = 0
